@@ -2,11 +2,13 @@
    measure rpmem of the loop state after ANY number of blocks over ANY source is bounded by
    constants, CACHE and terms in the number of files of the output archive and its runs; a
    FileContent block of any announced length adds at most one run. *)
+From MLA Require Import Limit.
 From MLA Require Import Base Stream Blocks Writer Reader Repair Total TotalRepair Mem MemSize MemSizeProofs MemReaders.
 From Coq Require Import ZifyBool ZifyNat ZifyN.
 Open Scope N_scope.
 
 Section AppendCur.
+  Context {LIM : Limit}.
   Variable T_CONTENT : N.
   Notation w_append := (w_append T_CONTENT).
 
@@ -47,6 +49,7 @@ Section AppendCur.
 End AppendCur.
 
 Section RepairMem.
+  Context {LIM : Limit}.
   Variable FNMAX CACHE : N.
   Variables T_START T_CONTENT T_EOA T_EOF : N.
   Variable H : bytes -> bytes.
